@@ -1,5 +1,6 @@
 """C14 — request parsing accepts exactly well-formed requests and round-trips them."""
 import codec_common as K
+import codec_random as R
 
 
 def value_class(v):
@@ -30,4 +31,4 @@ def run(tier, replay):
                        "Gen_Codec(c14): 9 methods x 4 versions; 7 target classes x header lists (0, 1, 3, duplicate names, 50) with values containing ':' / ': ' / '=' / blanks / empty / "
                        "quotes / non-ASCII; bodies (empty, text, beginning with CRLF, containing CRLF CRLF, NUL, all 256 values); Request::parse(Request::generate(r)) compared field by "
                        "field, header lookup under three spellings; 60 request-line near misses classed valid / unknown method / unknown version / incomplete / not UTF-8 / free",
-                       ["strings travel unchanged through the harness (JSON); bodies as byte arrays"])
+                       ["strings travel unchanged through the harness (JSON); bodies as byte arrays"], extra_cases=R.c14)
